@@ -195,10 +195,13 @@ def gen_signals(rng):
         if x < 0.22 or nsig == 0: out.append("top sigprepare e%d" % rng.randrange(n)); nsig += 1
         elif x < 0.40: out.append("top sigclone a%d" % rng.randrange(nsig))
         elif x < 0.70: out.append("top sigdrop a%d" % rng.randrange(nsig))
-        elif x < 0.80: out.append("top gc")
-        elif x < 0.85: out.append("top sigthreads a%d %d" % (rng.randrange(nsig), rng.randint(1, 8)))
-        elif x < 0.90: out.append("top wdespawn e%d" % rng.randrange(n))
-        elif x < 0.94: out.append("top wdespawnrec e%d" % rng.randrange(n))
+        elif x < 0.78: out.append("top gc")
+        elif x < 0.82: out.append("top sigthreads a%d %d" % (rng.randrange(nsig), rng.randint(1, 8)))
+        elif x < 0.88: out.append("top wdespawn e%d" % rng.randrange(n))
+        elif x < 0.91: out.append("top wdespawnrec e%d" % rng.randrange(n))
+        elif x < 0.96:
+            # a fresh entity: Bevy hands out the most recently freed slot again (a stale signal must not hit it)
+            out += ["top acts 1", "spawn"]; n += 1
         else: out.append("top wsetparent e%d e%d" % (rng.randrange(n), rng.randrange(n)))
     out.append("top frameend")
     return "\n".join(out) + "\n"
@@ -535,6 +538,43 @@ def gen_deeprec(rng):
     out.append("top frameend")
     return "\n".join(out) + "\n"
 
+def gen_appreact(rng):
+    """C13/C01: reactors registered through `App::add_reactor` with plain `fn` items (zero-sized), the same function
+    registered several times on the same or different type-wide triggers; triggers fired at top level and from inside
+    bodies, so registrations of one function run interleaved and nested."""
+    g = G(rng); out = []
+    g.ndefs = rng.randint(1, 3)
+    nE = 2
+    def fire():
+        x = rng.random(); ty = rng.randrange(NTY)
+        if x < 0.4: return "broadcast %d %d" % (ty, g.newpid())
+        if x < 0.6: return "resmut %d" % ty
+        if x < 0.8: return "mutate e%d %d %d" % (rng.randrange(nE), ty, rng.randrange(3))
+        return "entevent e%d %d %d" % (rng.randrange(nE), ty, g.newpid())
+    for d in range(g.ndefs):
+        runs = []
+        for _ in range(rng.randint(2, 4)):
+            sc = [fire() for _ in range(rng.randint(0, 2))]
+            if rng.random() < 0.2: sc.append("run s%d" % rng.randrange(4))
+            runs.append(sc)
+        out.append("def 0 %d" % len(runs))
+        for sc in runs: out.append("run %d" % len(sc)); out += sc
+    nS = 0
+    for _ in range(rng.randint(2, 5)):
+        d = rng.randrange(g.ndefs)
+        ts = []
+        for _ in range(rng.randint(1, 2)):
+            ts.append(rng.choice(["bc", "res", "mut", "anyev", "ins"]) + ":%d" % rng.randrange(NTY))
+        out.append("top appreactor %d %s" % (d, " ".join(ts))); nS += 1
+    setup = ["spawn"] * nE + ["insert e%d %d 0" % (e, ty) for e in range(nE) for ty in range(NTY)]
+    out.append("top acts %d" % len(setup)); out += setup
+    for _ in range(rng.randint(3, 7)):
+        sc = [fire() for _ in range(rng.randint(1, 2))]
+        out.append("top acts %d" % len(sc)); out += sc
+        if rng.random() < 0.2: out.append("top appreactor %d bc:%d" % (rng.randrange(g.ndefs), rng.randrange(NTY)))
+    out.append("top frameend")
+    return "\n".join(out) + "\n"
+
 def gen_visibility(rng):
     """C03/C04/C05: several listeners per event; bodies run other systems (probes) and send further events, so readers
     are sampled at every position of the tree while data entities are still alive."""
@@ -740,6 +780,7 @@ PROFILES = {
     "removal2": gen_removal2,
     "dsp": gen_dsp,
     "cascade": gen_cascade,
+    "appreact": gen_appreact,
     "deeprec": gen_deeprec,
     "access2": gen_access2,
     "access": lambda rng: gen_mix(rng, weights=dict(access=6, trigger=5, register=1.5), body_weights=dict(access=4, trigger=4)),
